@@ -238,15 +238,31 @@ SCHEMAS = ("S1", "S2")
 DATABASE = "DB1"
 MAX_TOKENS = 3
 
-# statements a token can send: id -> (sql template with {i} = token index, what it is)
+# What a token writes depends on the token, in value AND in type, while the texts it reads with (sel, getv) are the same
+# for every token: the identical query text therefore has different expected answers of different result types
+# depending on who wrote last, on the sender's current schema, on its instance and on its own variables.
+MARK_LITERALS = ("0", "'w1'", "'2002-02-02'::date")  # token index -> SQL constant written into MARK.WHO
+MARK_VALUES = (0, "w1", dt.date(2002, 2, 2))  # ... and what the connector returns for it (int / str / date)
+VAR_LITERALS = ("10", "'v1'", "2.5")  # token index -> SQL constant assigned to $V
+VAR_VALUES = (10, "v1", D("2.5"))  # SELECT $V: NUMBER(2,0) -> int, VARCHAR -> str, NUMBER(2,1) -> Decimal
+
+# statements a token can send: id -> sql template ({mark} / {var} = the token's own constants)
 STMTS = {
-    "put": "create or replace table MARK as select {i} as WHO",
+    "put": "create or replace table MARK as select {mark} as WHO",
     "sel": "select WHO from MARK",
     "use1": "use schema S1",
     "use2": "use schema S2",
-    "set": "set V = 'v{i}'",
+    "set": "set V = {var}",
     "getv": "select $V",
 }
+READ_STMTS = ("sel", "getv")  # token independent texts whose answers depend on the state
+
+
+def stmt_sql(s: str, i: int) -> str:
+    """SQL text of statement s sent by token i."""
+    return STMTS[s].format(mark=MARK_LITERALS[i], var=VAR_LITERALS[i])
+
+
 # statements sent WITHOUT a valid token: all of them would change something if they were executed on any session
 INTRUDER_STMTS = {
     "put": "create or replace table MARK as select 9 as WHO",
@@ -336,12 +352,12 @@ class SessionModel:
             who = store[t["schema"]]
             if who is None:
                 return ("err", 2003, "42S02")
-            return ("rows", [(who,)])
+            return ("rows", [(MARK_VALUES[who],)])
         if s in ("use1", "use2"):
             t["schema"] = "S1" if s == "use1" else "S2"
             return ("status",)
         if s == "set":
-            t["vars"]["V"] = f"v{i}"
+            t["vars"]["V"] = VAR_VALUES[i]
             return ("status",)
         if s == "getv":
             if "V" not in t["vars"]:
